@@ -426,10 +426,18 @@ def check(ctx):
                                              "theorem": "Properties_C01.v C01_no_fault (run_okb) -- the extracted premise and the proved one disagree"}, no_input=True)
     # leak bit of the per-case heap accounting
     leaky = [live[j] for j, t in enumerate(traces) if t & LEAK_BIT]
-    for i in leaky[:2]:
-        k = cp.known_crash(cases[i], "LeakSanitizer " + " ".join(x for f in kf.values() for x in f.get("signature", {}).get("stack_contains", [])))
-        vf.violation(ctx, "S-connp-heap-%d" % i, {"kind": "memory-still-allocated-after-destroy", "suite": "S-connp", "case": cases[i],
-                                                  "note": "live heap bytes after htp_connp_destroy_all + htp_config_destroy differ from the count before htp_config_create"})
+    nheap = 0
+    for i in leaky[:40]:
+        # which allocation is it? run the case alone: LeakSanitizer names the allocation stack, which is matched against the listed leak finding
+        l1, rc1, err1 = vf.run_driver(ctx, vf.impl_driver(ctx, "san"), [cases[i]], "heap-one", timeout=120)
+        k = cp.known_crash(cases[i], err1) if "LeakSanitizer" in err1 else None
+        if k is not None and not in_domain[i]:
+            counts[k["id"]] = counts.get(k["id"], 0) + 1
+            continue
+        nheap += 1
+        if nheap <= 2:
+            vf.violation(ctx, "S-connp-heap-%d" % i, {"kind": "memory-still-allocated-after-destroy", "suite": "S-connp", "case": cases[i], "leak_report": err1[-2500:],
+                                                      "note": "live heap bytes after htp_connp_destroy_all + htp_config_destroy differ from the count before htp_config_create"})
     st["heap_not_returned"] = len(leaky)
     # full-line correspondence
     mm = [live[j] for j in range(len(live)) if impl[j] != model[live[j]]]
